@@ -115,6 +115,14 @@ def word(p):
     return [ev_name(e) for e in ev]
 
 
+def pel(x):
+    if x[0] == "f":
+        return str(x[2]) if len(x) > 2 and x[2] is not None else str(x[1])
+    if len(x) > 1:
+        return str(x[1])
+    return x[0]
+
+
 def short(v, d=0):
     if not isinstance(v, tuple):
         return str(v)
@@ -125,7 +133,7 @@ def short(v, d=0):
     if v and v[0] == "c":
         return str(v[1])
     if v and v[0] == "init" and len(v) == 3:
-        return "%s.%s" % (v[1][0] if v[1] else "?", ".".join(str(x[2]) if x[0] == "f" else str(x[1]) for x in v[2]))
+        return "%s.%s" % (v[1][0] if v[1] else "?", ".".join(pel(x) for x in v[2]))
     if v and v[0] == "call":
         return "%s(%s)" % (v[1].split("::")[-1], ",".join(short(x, d + 1) for x in v[2]) if d < 4 else "..")
     if d > 5:
@@ -147,7 +155,7 @@ def path_summary(p, limit=60):
         if e[0] == "call":
             eff.append("call %s(%s) @%s" % (e[1].split("::")[-1], ", ".join(short(x) for x in e[3]), e[5][1]))
         elif e[0] == "write":
-            eff.append("write %s.%s = %s @%s" % (e[1][0], ".".join(str(x[2]) if x[0] == "f" else str(x[1]) for x in e[2]), short(e[3]), e[4][1]))
+            eff.append("write %s.%s = %s @%s" % (e[1][0], ".".join(pel(x) for x in e[2]), short(e[3]), e[4][1]))
         elif e[0] in ("enter", "exit"):
             eff.append("%s %s" % (e[0], e[1].split("::")[-1]))
         elif e[0] == "push":
@@ -239,3 +247,124 @@ def packet_kind_of(v):
     if m:
         return "%s::%s" % m[-1]
     return None
+
+
+# ------------------------------------------------- conditional write summaries
+# external container contracts: result value for which the call leaves the receiver unchanged
+NOOP_RESULT = {
+    "hashbrown::HashSet::<T, S, A>::insert": ("bool", 0),
+    "hashbrown::HashSet::<T, S, A>::remove": ("bool", 0),
+}
+_wsum = {}
+
+
+def write_summary(F, callee_path):
+    """For an in-crate callee taking &mut self: the set of Option/Result variants of its return value
+    for which *no* path writes through self (computed by exploring the callee itself)."""
+    key = (F.hash, callee_path)
+    if key in _wsum:
+        return _wsum[key]
+    out = set()
+    if callee_path in F.fns:
+        try:
+            res = paths(F, callee_path)
+        except Exception:
+            res = None
+        if res:
+            by = {}
+            for p in res["paths"]:
+                if p.kind != "return":
+                    continue
+                v = p.ret
+                var = v[2] if v and v[0] == "agg" else None
+                wrote = any(e[0] == "write" and e[1] == ("self",) for e in p.effects)
+                by.setdefault(var, []).append(wrote)
+            out = {var for var, ws in by.items() if var is not None and not any(ws)}
+            if None in by:
+                out = set()  # some path returns an untracked value: no claim
+    _wsum[key] = out
+    return out
+
+
+def effective_writes(F, p):
+    """(field, how, effect) for every self-field write on the path that is not a provable no-op."""
+    out = []
+    for e in p.effects:
+        fld = field_of_write(e)
+        if fld is None:
+            continue
+        val = e[3]
+        how = "assign"
+        if val[0] == "sym" and val[1][0] == "mut":
+            m = val[1]
+            callee = m[1][0]
+            how = callee.split("::")[-1]
+            res = m[4] if len(m) > 4 else None
+            if res is not None:
+                nr = NOOP_RESULT.get(callee)
+                if nr is not None:
+                    c = p.cons.get(res)
+                    if c is not None and c[0] == "eq" and c[1] == nr[1]:
+                        continue
+                else:
+                    nov = write_summary(F, callee)
+                    if nov:
+                        done = False
+                        for adt in ("std::option::Option", "std::result::Result"):
+                            c = p.cons.get(("discr", res, adt))
+                            if c is not None and c[0] == "eq":
+                                var = explore.BUILTIN_DISCR[adt].get(c[1])
+                                if var in nov:
+                                    done = True
+                        if done:
+                            continue
+        out.append((fld, how, e))
+    return out
+
+
+# ------------------------------------------------- evaluating path constraints
+def feasible(p, env):
+    """Is the path consistent with the partial assignment env (term -> int)?  Unassigned atoms are free."""
+    def val_of(x):
+        if x[0] == "c":
+            return x[1]
+        if x[0] == "sym" and x[1] in env:
+            return env[x[1]]
+        return None
+    for k, c in p.cons.items():
+        v = None
+        if k in env:
+            v = env[k]
+        elif k[0] == "cmp":
+            a, b = val_of(k[2]), val_of(k[3])
+            if a is not None and b is not None:
+                v = 1 if ((a == b) if k[1] == "Eq" else (a < b)) else 0
+        elif k[0] == "enum_eq":
+            pass
+        if v is None:
+            continue
+        if c[0] == "eq":
+            if c[1] != v:
+                return False
+        elif v in c[1]:
+            return False
+    return True
+
+
+def role_consts(F):
+    """RoleType associated consts per role type (evaluated by the compiler)."""
+    out = {}
+    tr = F.traits.get("mqtt::connection::role::RoleType")
+    defaults = tr["consts"] if tr else {}
+    for im in F.impls_of("mqtt::connection::role::RoleType"):
+        c = dict(defaults)
+        c.update({k: v for k, v in im["consts"].items() if v is not None})
+        out[im["self"].split("::")[-1]] = c
+    return out
+
+
+def role_env(F, role):
+    env = {}
+    for k, v in role_consts(F)[role].items():
+        env[("const", "<Role as mqtt::connection::role::RoleType>::%s" % k)] = v
+    return env
